@@ -489,6 +489,14 @@ impl Engine {
                 self.trace.push("root_entry()".into());
                 let c = self.cfb.as_ref().unwrap();
                 let obs = guard("root_entry", || obs_entry(&c.root_entry()))?;
+                let v = guard("version", || c.version())?;
+                let vn = match v {
+                    cfb::Version::V3 => 3u8,
+                    cfb::Version::V4 => 4u8,
+                };
+                if vn != self.version {
+                    return Err(self.mismatch("version", "always", &self.version.to_string(), &vn.to_string(), format!("version() = {}, file was created as version {}", vn, self.version)));
+                }
                 let exp = self.model.entry_info(&[]).unwrap();
                 cmp_entry(&exp, &obs, false).map_err(|m| self.mismatch("root_entry", "exists", "model_entry", "other", format!("root_entry(): {}", m)))?;
             }
